@@ -71,6 +71,12 @@ impl Drop for MemoryAllocation {
 }
 
 impl Memory<'_> {
+    /// (start - base, end - start) of the free region, for verification tooling.
+    #[cfg(dashu_verif)]
+    pub(crate) fn verif_bounds(&self, base: usize) -> (usize, usize) {
+        (self.start as usize - base, self.end as usize - self.start as usize)
+    }
+
     /// Allocate a slice with a given value.
     ///
     /// Returns the remaining chunk of memory.
